@@ -112,7 +112,7 @@ func New(p *hast.Program, host *Host, vars map[string]Val) *Machine {
 	m.Cur = first.Title
 	m.stack = []frame{{body: first.Body}}
 	m.checkpoint()
-	m.env = Env{Get: func(name string) (Val, bool) { v, ok := m.Vars[name]; return v, ok }, Funcs: map[string]Fn{}}
+	m.env = Env{Get: func(name string) (Val, bool) { v, ok := m.Vars[name]; return v, ok }, Funcs: map[string]Fn{}, Stats: m.Stats}
 	for k, f := range Builtins() {
 		m.env.Funcs[k] = f
 	}
